@@ -32,7 +32,8 @@ END = "END"
 def default_knobs():
   return {"strategy": "random", "sticky_den": 4, "pct_d": 2,
           "pct_horizon": 300, "gap_max": 0, "line_budget": 0, "fair": 64,
-          "stall_den": 0, "late_den": 0, "phase2_seeded": 1}
+          "stall_den": 0, "late_den": 0, "phase2_seeded": 1,
+          "hot_line": None, "hot_budget": 0}
 
 
 def nearest_set(T):
@@ -84,6 +85,19 @@ class ThreadsPart(object):
     fix = lambda f: f.replace(".pyc", ".py")
     self.trace_files = (fix(lazy_stream.__file__), fix(self.lio.__file__))
     self.runs_done = 0
+    import inspect
+    lines = set()
+    for fn in (lazy_stream.Streamix.__init__, lazy_stream.Streamix.add,
+               lazy_stream.ControlStream.__init__):
+      try:
+        src, start = inspect.getsourcelines(fn)
+      except (OSError, TypeError):
+        continue
+      for off, text in enumerate(src):
+        t = text.strip()
+        if t and t[0] not in "#\"'" and not t.startswith("def "):
+          lines.add(start + off)
+    self.hot_lines = sorted(lines)
 
   # ---------------------------------------------------------------- workload
   def gen_knobs(self, W):
@@ -97,6 +111,9 @@ class ThreadsPart(object):
     k["line_budget"] = W.pick("lbud", [0, 10, 60, 400])
     k["fair"] = W.pick("fair", [64, 8, 32])
     k["stall_den"] = W.pick("stall", [0, 0, 10, 4])
+    if self.hot_lines and W.chance("hot", 1, 3):
+      k["hot_line"] = W.pick("hotline", self.hot_lines)
+      k["hot_budget"] = W.pick("hotbudget", [1, 3, 8])
     return k
 
   def gen_workload(self, W, part):
